@@ -1,0 +1,10 @@
+//go:build verif
+
+package shellfuncsfile
+
+// Contracts for the verification machinery in /verif (govc).  This file is
+// comment-only and is compiled only with -tags verif.
+
+//@ func NewDefaultConverter() (c)
+//@   props C17 C20
+//@   ensures usable: c != nil
